@@ -65,6 +65,8 @@ func corpus() []string {
 		`{"//":"c","a":1}`,
 		// characters that form a grapheme cluster with the following quote / delimiter (Unicode Prepend, ZWJ, combining marks)
 		"[\"a\u0600\",1]", "\"\u0600\"", "{\"k\u0600\":\"v\u0301\"}", "[\"\u200d\",\"e\u0301\"]", "\"a\u0600\" ",
+		// ... followed by an escape sequence
+		"\"\u0600\\\"\"", "[\"\u0600\\\\\", 1]", "{\"\u0600\\\"\":\"\u06dd\\\\\"}", "\"\u0600\\n\u070f\\u0041\"", "\"e\u0301\\\"\u200d\\\\\"",
 		`{"a":"b","c":{"d":["e",{"f":null}]}}`,
 	}
 	docs = append(docs, strings.Repeat("[", 64)+strings.Repeat("]", 64))
